@@ -280,6 +280,12 @@ def ff_rule(repo, res, rule="FF"):
                     labels = []
                     for c in calls:
                         lab = [x["v"] for x in A.walk(c["recv"]) if x["k"] == "Lit"]
+                        if not lab:
+                            # the label may reach ErrMsg::new through a local (a helper closure's parameter)
+                            for nw in P.find_calls(c["recv"], names={"new"}):
+                                q = A.resolve(nw["args"][0], envs.get(id(nw))) if nw["args"] else ("none",)
+                                if q[0] == "lit":
+                                    lab = [q[1]]
                         sp = A.resolve(c["args"][0], envs.get(id(c)))
                         labels.append((lab[0] if lab else "", sp[2] if sp[0] == "bind" else "?"))
                     ok = ("Duplicate nonterminal definition", "1") in labels and ("Previous definition", "0") in labels
@@ -442,10 +448,20 @@ def srctext_rule(repo, res, rule="SRCTEXT"):
     src = A.resolve(c["args"][0], envs.get(id(c)))
     same = True
     n = 0
+    # which parameter of handle_error is the source text: the one it hands to `.error(span, source, ..)`
+    he = repo.fn("main::handle_error")
+    sidx = 2
+    if he is not None:
+        henvs = A.collect_envs(he)
+        for w in P.find_calls(he.body, methods={"error", "warning"}):
+            if len(w["args"]) == 3:
+                q = P.peel(A.resolve(w["args"][1], henvs.get(id(w))))
+                if q[0] == "param" and isinstance(q[1], int):
+                    sidx = q[1]
     for h in P.find_calls(fn.body, names={"handle_error"}) :
-        if len(h["args"]) >= 3:
+        if len(h["args"]) > sidx:
             n += 1
-            same = same and P.peel(A.resolve(h["args"][2], envs.get(id(h)))) == P.peel(src)
+            same = same and P.peel(A.resolve(h["args"][sidx], envs.get(id(h)))) == P.peel(src)
     for w in P.find_calls(fn.body, methods={"warning", "error"}):
         if len(w["args"]) == 3:
             n += 1
